@@ -332,4 +332,96 @@ Section ToDisp.
       repeat (split; [reflexivity|]);
       (eexists; split; [reflexivity|]; apply Hint; reflexivity).
   Qed.
+
+  (* ---------------------------------------------------------------- the C03 statements on the generated to_disp *)
+
+  Lemma rep_nonempty : forall CV nr nc n cv disps r c, cv_rep CV nr nc n cv disps -> 0 < n ->
+    0 <= r < nr -> 0 <= c < nc -> cv r c <> [].
+  Proof.
+    intros CV nr nc n cv disps r c (_ & Hlen & _) Hn Hr Hc E. specialize (Hlen r c Hr Hc). rewrite E in Hlen. cbn in Hlen. lia.
+  Qed.
+
+  Lemma sk_of_B : forall mx, 1 <= sk_B (sk_of mx).
+  Proof. intros [|]; [apply (wta_loop_params true skmax Hmax) | apply (wta_loop_params false skmin Hmin)]. Qed.
+
+  (* the disparity map is a well-formed nr x nc array (no operation of the generated code raises: shapes
+     agree, the looked-up positions are inside the disparity axis) holding at every pixel the Spec's answer *)
+  Theorem gen_wta_eq_spec : forall inv CV nr nc n cv disps,
+    cv_rep CV nr nc n cv disps -> 0 < n -> 0 <= nr -> 0 <= nc ->
+    let DM := snd (gen_to_disp inv CV) in
+    err (dm_disp DM) = false /\ shp (dm_disp DM) = [nr; nc] /\
+    forall r c, 0 <= r < nr -> 0 <= c < nc -> no_subst_inf (mx_of CV) (cv r c) ->
+      elt (dm_disp DM) [r; c] = wta_pixel (mx_of CV) disps inv (cv r c).
+  Proof.
+    intros inv CV nr nc n cv disps Hrep Hn Hnr Hnc DM.
+    destruct (gen_to_disp_is_model inv CV nr nc n cv disps (fun _ _ => []) (fun _ _ => 0) Hrep Hn Hnr Hnc) as ((He & Hs & Hg) & _).
+    repeat split; try assumption. intros r c Hr Hc Hguard. unfold DM. rewrite Hg by assumption.
+    apply wta_eq_spec_all; try assumption; [apply sk_of_B | eapply rep_nonempty; eassumption].
+  Qed.
+
+  (* the step leaves the cost volume values unchanged: the dataset afterwards holds the same volume (EVERY
+     volume, also those that contain +-inf), the same disparity axis, coordinates, attributes, bands and flags
+     (the same arrays); only disp_indices is new *)
+  Theorem gen_wta_cv_unchanged : forall inv CV nr nc n cv disps,
+    cv_rep CV nr nc n cv disps -> 0 < n -> 0 <= nr -> 0 <= nc ->
+    let CV' := fst (gen_to_disp inv CV) in
+    cv_rep CV' nr nc n cv disps
+    /\ cv_disp CV' = cv_disp CV /\ cv_conf CV' = cv_conf CV /\ cv_mask CV' = cv_mask CV
+    /\ cv_attrs CV' = cv_attrs CV /\ cv_row CV' = cv_row CV /\ cv_col CV' = cv_col CV.
+  Proof.
+    intros inv CV nr nc n cv disps Hrep Hn Hnr Hnc CV'.
+    destruct (gen_to_disp_is_model inv CV nr nc n cv disps (fun _ _ => []) (fun _ _ => 0) Hrep Hn Hnr Hnc)
+      as (_ & Hcv & _ & _ & _ & _ & _ & _ & E1 & E2 & E3 & E4 & E5 & E6 & _).
+    fold CV' in Hcv, E1, E2, E3, E4, E5, E6.
+    destruct Hrep as (HW & Hlen & HD & Hrow & Hcol).
+    repeat split; try assumption; try (rewrite ?E1, ?E5, ?E6; assumption); try apply HD.
+    - apply Hcv.
+    - apply Hcv.
+    - intros i j k Hi Hj Hk. destruct Hcv as (_ & _ & Hg). rewrite Hg by assumption. rewrite wta_cv_unchanged_all. reflexivity.
+    - rewrite E1. apply HD.
+    - rewrite E1. apply HD.
+    - rewrite E1. apply HD.
+  Qed.
+
+  (* confidence bands and validity flags are carried over unaltered (the confidence DataArray itself, a copy
+     of the validity mask), with the attributes and the coordinates; disp_indices holds the values of the map;
+     disparity_interval is (first, last) sampled disparity *)
+  Theorem gen_wta_carries : forall inv CV nr nc n cv disps,
+    cv_rep CV nr nc n cv disps -> 0 < n -> 0 <= nr -> 0 <= nc ->
+    let CV' := fst (gen_to_disp inv CV) in
+    let DM := snd (gen_to_disp inv CV) in
+    dm_conf DM = cv_conf CV /\ dm_mask DM = Some (cv_mask CV) /\ dm_attrs DM = Some (cv_attrs CV)
+    /\ dm_row DM = cv_row CV /\ dm_col DM = cv_col CV
+    /\ (exists X, cv_disp_indices CV' = Some X /\ err X = false /\ shp X = [nr; nc]
+                  /\ forall r c, 0 <= r < nr -> 0 <= c < nc -> elt X [r; c] = elt (dm_disp DM) [r; c])
+    /\ (exists I, dm_interval DM = Some I
+                  /\ is1 I 2 (fun i => Some (nth (if i =? 0 then O else Z.to_nat (n - 1)) disps 0%Q))).
+  Proof.
+    intros inv CV nr nc n cv disps Hrep Hn Hnr Hnc CV' DM.
+    destruct (gen_to_disp_is_model inv CV nr nc n cv disps (fun _ _ => []) (fun _ _ => 0) Hrep Hn Hnr Hnc)
+      as ((_ & _ & Hg) & _ & (X & EX & (HXe & HXs & HXg)) & E1 & E2 & E3 & E4 & E5 & _ & _ & _ & _ & _ & _ & HI).
+    repeat split; try assumption.
+    exists X. repeat split; try assumption. intros r c Hr Hc. rewrite HXg by assumption. fold DM in Hg. rewrite Hg by assumption.
+    reflexivity.
+  Qed.
 End ToDisp.
+
+(* the result does not depend on the block sizes: any two pairs of accepted skeletons (whatever their block
+   sizes >= 1), every dataset, every pixel *)
+Theorem gen_wta_block_independent : forall skmin skmax skmin' skmax' inv CV nr nc n cv disps r c,
+  wta_skeleton_ok false skmin = true -> wta_skeleton_ok true skmax = true ->
+  wta_skeleton_ok false skmin' = true -> wta_skeleton_ok true skmax' = true ->
+  cv_rep CV nr nc n cv disps -> 0 < n -> 0 <= nr -> 0 <= nc -> 0 <= r < nr -> 0 <= c < nc ->
+  elt (dm_disp (snd (gen_to_disp skmin skmax inv CV))) [r; c] = elt (dm_disp (snd (gen_to_disp skmin' skmax' inv CV))) [r; c].
+Proof.
+  intros skmin skmax skmin' skmax' inv CV nr nc n cv disps r c H1 H2 H3 H4 Hrep Hn Hnr Hnc Hr Hc.
+  destruct (gen_to_disp_is_model skmin skmax H1 H2 inv CV nr nc n cv disps (fun _ _ => []) (fun _ _ => 0) Hrep Hn Hnr Hnc) as ((_ & _ & Hg) & _).
+  destruct (gen_to_disp_is_model skmin' skmax' H3 H4 inv CV nr nc n cv disps (fun _ _ => []) (fun _ _ => 0) Hrep Hn Hnr Hnc) as ((_ & _ & Hg') & _).
+  rewrite Hg, Hg' by assumption.
+  apply wta_block_independent_all; try assumption; apply sk_of_B; assumption.
+Qed.
+
+(* an index map narrower than the disparity axis would not do: the int16 cast of a position beyond 32767
+   is another position (why the translator keeps the cast in the generated text instead of dropping it) *)
+Lemma astype_int16_wraps : wrap_int 16 32768 = -32768 /\ wrap_int 16 40000 = -25536 /\ wrap_int 16 65536 = 0.
+Proof. vm_compute. repeat split; reflexivity. Qed.
